@@ -344,7 +344,14 @@ class FormulaMaterializer(metaclass=FormulaMaterializerMeta):
     def _prepare_factor_evaluation_model_spec(
         self, model_specs: ModelSpecs
     ) -> tuple[Iterable[Factor], ModelSpec]:
-        from formulaic.model_spec import ModelSpec
+        from formulaic.model_spec import ModelSpec, _have_conflicting_state
+
+        if _have_conflicting_state(model_specs._flatten()):
+            raise FormulaMaterializationError(
+                "Provided `ModelSpec` instances have recorded different state for the "
+                "same factor or transform, and so cannot be materialized jointly. Use "
+                "`ModelSpecs.get_model_matrix` or materialize them separately."
+            )
 
         output = set()
         na_action = set()
@@ -365,9 +372,7 @@ class FormulaMaterializer(metaclass=FormulaMaterializerMeta):
                     itertools.chain(*(term.factors for term in model_spec.formula))
                 )
             )
-            transform_state.update(
-                model_spec.transform_state
-            )  # TODO: Check for consistency?
+            transform_state.update(model_spec.transform_state)
             encoder_state.update(model_spec.encoder_state)
 
         model_specs._map(update_pooled_spec)
@@ -615,16 +620,15 @@ class FormulaMaterializer(metaclass=FormulaMaterializerMeta):
                         f"Factor `{factor}` is expecting values of kind '{factor.kind.value}', "
                         f"but they are actually of kind '{value.__formulaic_metadata__.kind.value}'."
                     )
-            if (
-                factor.expr in spec.encoder_state
-                and value.__formulaic_metadata__.kind
-                is not spec.encoder_state[factor.expr][0]
-            ):
-                raise FactorEncodingError(
-                    f"The model specification expects factor `{factor}` to have values of kind "
-                    f"`{spec.encoder_state[factor.expr][0]}`, but they are actually of kind "
-                    f"`{value.__formulaic_metadata__.kind.value}`."
-                )
+            if factor.expr in spec.encoder_state:
+                # (user-supplied encoder state may nominate the kind by name)
+                expected_kind = Factor.Kind(spec.encoder_state[factor.expr][0])
+                if value.__formulaic_metadata__.kind is not expected_kind:
+                    raise FactorEncodingError(
+                        f"The model specification expects factor `{factor}` to have values of kind "
+                        f"`{expected_kind.value}`, but they are actually of kind "
+                        f"`{value.__formulaic_metadata__.kind.value}`."
+                    )
             self._check_for_nulls(factor.expr, value, spec.na_action, drop_rows)
             self.factor_cache[factor.expr] = EvaluatedFactor(
                 factor=factor, values=value, variables=variables
